@@ -183,8 +183,12 @@ def run(rep: common.Report, tier: str, seed: int, replay=None) -> int:
 
         # ---------- devices ----------
         for di in range(8 if tier == "quick" else 40):
+            # layer parameters include the falsy-but-valid corner values (gamma = 0: plain TDGL; z0 = 0; conductivity None / set)
+            lay = [dict(), dict(gamma=0.0), dict(gamma=2.5, u=1.0), dict(conductivity=0.5), dict(gamma=0, conductivity=2.0),
+                   dict(u=0.25), dict(gamma=1e-3), dict()][di % 8]
             d = meshes.make_device(rng, holes=di % 3, terminals=[0, 2, 3, 4][di % 4], max_edge_length=1.5,
-                                   probe_points=(di % 2 == 0), shape=["box", "ellipse", "union"][di % 3])
+                                   probe_points=(di % 2 == 0), shape=["box", "ellipse", "union"][di % 3], **lay)
+            d.layer.z0 = [0.0, 0.3, -0.2][di % 3]
             for with_mesh in (True, False):
                 p = os.path.join(td, f"d{di}{int(with_mesh)}.h5")
                 try:
@@ -196,6 +200,12 @@ def run(rep: common.Report, tier: str, seed: int, replay=None) -> int:
                 case = {"device": di, "holes": di % 3, "terminals": [0, 2, 3, 4][di % 4], "probe_points": di % 2 == 0, "with_mesh": with_mesh}
                 if d2 != d:
                     rep.violation("a loaded device does not compare equal to the original", case)
+                for attr in ("london_lambda", "coherence_length", "thickness", "conductivity", "u", "gamma", "z0"):
+                    va, vb = getattr(d.layer, attr), getattr(d2.layer, attr)
+                    if not ((va is None and vb is None) or (va is not None and vb is not None and float(va) == float(vb))):
+                        rep.violation(f"layer.{attr} changed through device save/load: {va!r} -> {vb!r}", case)
+                if d2.length_units != d.length_units or d2.name != d.name:
+                    rep.violation("device name / length units changed through save/load", case)
                 for a, b in zip(sorted(d.polygons, key=lambda q: q.name), sorted(d2.polygons, key=lambda q: q.name)):
                     if not np.array_equal(a.points, b.points) or a.name != b.name or a.mesh != b.mesh:
                         rep.violation("polygon vertices / attributes changed through save/load", {**case, "polygon": a.name})
